@@ -528,7 +528,12 @@ func ImpliedX(info *types.Info, scope ast.Node, cond ast.Expr, truth bool, holds
 	if info == nil || scope == nil {
 		return false
 	}
-	return Implied(ExpandBoolLocals(info, scope, cond), truth, holds) || Implied(ExpandLocals(info, scope, cond), truth, holds)
+	if Implied(ExpandBoolLocals(info, scope, cond), truth, holds) || Implied(ExpandLocals(info, scope, cond), truth, holds) {
+		return true
+	}
+	// guards hidden in small predicate helpers of the same package
+	in := InlinePredicates(info, ExpandBoolLocals(info, scope, cond))
+	return Implied(in, truth, holds)
 }
 
 func expandLocals(info *types.Info, scope ast.Node, cond ast.Expr, operands bool) ast.Expr {
